@@ -34,7 +34,7 @@ def parseChecks : Nat → List String → Option (List Check × List String)
   | n + 1, c :: r :: s :: ws => do
     let ctx ← c.toNat?
     let req ← bitOf r
-    let st ← rawOf s
+    let st ← (if s == "NULL" then some none else (rawOf s).map some)
     let (cs, rest) ← parseChecks n ws
     pure ({ ctx := ctx, required := req, state := st } :: cs, rest)
   | _, _ => none
